@@ -324,12 +324,19 @@ func TestWorker(t *testing.T) {
 			if v, err := strconv.Atoi(os.Getenv("VERIF_BOUND")); err == nil {
 				bound = v
 			}
-			for _, s := range chk.Scenarios(tier) {
+			for i, s := range chk.Scenarios(tier) {
 				if only := os.Getenv("VERIF_SCENARIO"); only != "" && !strings.HasPrefix(s.Name, only) {
 					continue
 				}
 				s.Monitors = chk.Monitors
-				h.ExploreScenario(t, s, h.HOpts{Bound: bound, Shard: shard, Shards: shards, Prune: chk.Prune, Nontrivial: chk.Nontrivial, SampleMax: 2}, c)
+				o := h.HOpts{Bound: bound, Shard: shard, Shards: shards, Prune: chk.Prune, Nontrivial: chk.Nontrivial, SampleMax: 2}
+				if chk.ShardByScenario {
+					if i%shards != shard {
+						continue
+					}
+					o.Shard, o.Shards = 0, 1
+				}
+				h.ExploreScenario(t, s, o, c)
 			}
 			// determinism rule: every reported witness must replay identically, twice
 			for i := range c.R.Found {
